@@ -88,6 +88,61 @@ def make_judges(ctx):
                    elements=len(expf))
         ctx.floor_hit((ev.op, kind))
 
+    UF = {np.less: operator.lt, np.less_equal: operator.le, np.equal: operator.eq, np.not_equal: operator.ne, np.greater: operator.gt, np.greater_equal: operator.ge}
+
+    def ufunc_cmp_judge(ev):
+        # number (NumPy scalar / array) on the LEFT of a relation, or np.less(x, y) ...: NumPy hands the comparison to Fxp.__array_ufunc__
+        if ev.kind != 'method' or ev.op != '__array_ufunc__' or len(ev.args) != 4 or ev.args[0] not in UF or ev.args[1] != '__call__' or ev.kwargs:
+            return
+        rel = UF[ev.args[0]]
+        sides, kinds = [], []
+        for a in ev.args[2:]:
+            if isinstance(a, Fxp):
+                sn = None
+                for o, p in zip(ev.operands, ev.pre):
+                    if o is a:
+                        sn = p
+                if sn is None or not A.usable(sn) or not (1 <= sn.n_word <= 24 and -8 <= sn.n_frac <= sn.n_word + 8) or sn.cfg.get('_array_op_method') == 'raw':
+                    ctx.skip('cmp:operand outside domain (n_word<=24, real, unscaled, default array configuration)')
+                    return
+                sides.append(A.fr_array(sn))
+                kinds.append('Fxp')
+            else:
+                try:
+                    vals, shape, is_c = exact_values(a)
+                except Unsupported as e:
+                    ctx.skip('cmp:' + str(e))
+                    return
+                if is_c:
+                    ctx.skip('cmp:complex')
+                    return
+                v = np.empty(len(vals), dtype=object)
+                v[:] = vals
+                sides.append(v.reshape(shape))
+                kinds.append(type(a).__name__ if shape == () else 'array')
+        try:
+            exp = rel(sides[0], sides[1])
+        except Exception:
+            ctx.skip('cmp:shapes do not broadcast')
+            return
+        name = ev.args[0].__name__
+        if ev.exc is not None:
+            ctx.violation('raises', 'np.%s(%s, %s) raised %s: %s' % (name, kinds[0], kinds[1], type(ev.exc).__name__, str(ev.exc)[:80]), ev, key='cmp.ufunc_raises')
+            return
+        expf, shape = A.flat(np.asarray(exp, dtype=object)) if isinstance(exp, np.ndarray) else ([exp], ())
+        if isinstance(ev.result, Fxp):
+            ctx.violation('result_type', 'np.%s returned a fixed-point object, not truth values' % name, ev)
+            return
+        got = np.asarray(ev.result)
+        gotf = [bool(v) for v in got.ravel().tolist()]
+        if got.dtype != bool or tuple(got.shape) != tuple(shape) or gotf != [bool(v) for v in expf]:
+            ctx.violation('relation', 'np.%s(%s, %s): %s vs %s returned %r, exact values give %r' % (name, kinds[0], kinds[1], [str(v) for v in np.ravel(sides[0])[:3]],
+                          [str(v) for v in np.ravel(sides[1])[:3]], gotf[:4], [bool(v) for v in expf[:4]]), ev)
+        d = np.ravel(np.asarray(sides[0] - sides[1], dtype=object))[0]
+        ctx.judged(('ufunc', name, kinds[0], kinds[1], 'equal' if d == 0 else 'differ', len(shape)), True, None, elements=len(expf))
+        ctx.floor_hit(('ufunc', name))
+        ctx.floor_hit(('ufunc-left', kinds[0] if kinds[0] != 'Fxp' else 'Fxp'))
+
     def conv_judge(ev):
         if ev.kind != 'method' or ev.op not in ('get_val', 'astype', '__float__', '__int__', '__bool__', 'raw', 'uraw', '__call__') or ev.kwargs:
             return
@@ -139,17 +194,20 @@ def make_judges(ctx):
                 got = None
             if ev.op == '__float__' and not isinstance(res, float):
                 got = None
+        if ev.op in ('__float__', '__int__') and len(x.shape) >= 1:
+            ctx.floor_hit(('conv1', ev.op))
         if got != exp:
             ctx.violation('conversion', '%s of %s codes %s returned %.100r, expected %s' % (what, R.dtype_fxp(*x.fmt()), x.codes[:3], res, [str(e) for e in exp[:3]]), ev)
         neg_nonint = any(v < 0 and v.denominator != 1 for v in vals)
         fc = G.frac_class(x.n_word, x.n_frac)
         ctx.judged((what, fc, neg_nonint, len(x.shape)), neg_nonint or fc != 'in', None, elements=len(vals))
         ctx.floor_hit(('conv', what.split('[')[0]))
-    return [cmp_judge, conv_judge]
+    return [cmp_judge, ufunc_cmp_judge, conv_judge]
 
 
 def floors(tier):
-    return [(op, k) for op in REL for k in ('Fxp', 'number', 'array')] + \
+    return [(op, k) for op in REL for k in ('Fxp', 'number', 'array')] + [('ufunc', n) for n in ('less', 'less_equal', 'equal', 'not_equal', 'greater', 'greater_equal')] + \
+           [('ufunc-left', k) for k in ('float64', 'array', 'Fxp')] + [('conv1', '__float__'), ('conv1', '__int__')] + \
            [('conv', w) for w in ('get_val', 'astype(float)', 'astype(int)', '__float__', '__int__', '__bool__', 'raw', 'uraw')]
 
 
@@ -247,6 +305,16 @@ def run_case(case, ctx):
     for r in rels:
         _try(lambda: r(x, num))
         _try(lambda: r(num, x))
+    # NumPy numbers on the left (NumPy hands the relation to the fixed-point object), and the NumPy functions themselves
+    if i % 2 == 0:
+        npnum = rng.choice([np.float64(num), np.float64(num), np.array(float(num)), np.float32(num) if F(float(np.float32(num))) == vy else np.float64(num),
+                            np.int64(int(vy)) if vy.denominator == 1 and abs(vy) < 2 ** 62 else np.float64(num)])
+        for r in rels:
+            _try(lambda: r(npnum, x))
+        uf = [np.less, np.less_equal, np.equal, np.not_equal, np.greater, np.greater_equal]
+        _try(lambda: uf[i % 6](x, y))
+        _try(lambda: uf[(i + 1) % 6](x, num))
+        _try(lambda: uf[(i + 2) % 6](npnum, y))
     # arrays
     n = rng.randint(2, 4)
     cxa = [max(lox, min(hix, cx + d)) for d in range(n)]
@@ -254,6 +322,18 @@ def run_case(case, ctx):
     cya = [max(loy, min(hiy, R.floor_f(F(c) * R.lsb(fx[2]) / R.lsb(fy[2])) + rng.choice([-1, 0, 1]))) for c in cxa]
     ya = Fxp(cya, fy[0], fy[1], fy[2], raw=True)
     arr = np.array([float(F(c) * R.lsb(fy[2])) for c in cya])
+    if i % 3 == 0:
+        for r in rels:
+            _try(lambda: r(arr, xa))          # ndarray on the left
+        _try(lambda: np.greater_equal(xa, ya))
+        _try(lambda: np.not_equal(arr, xa))
+    # one-element arrays convert to python scalars like scalars do
+    if i % 3 == 1:
+        for one in (_try(lambda: Fxp([cx], fx[0], fx[1], fx[2], raw=True)), _try(lambda: Fxp([[cy]], fy[0], fy[1], fy[2], raw=True)), _try(lambda: xa[:1])):
+            if one is not None:
+                _try(lambda: float(one))
+                _try(lambda: int(one))
+                _try(lambda: bool(one))
     for r in rels:
         _try(lambda: r(xa, ya))
         _try(lambda: r(xa, arr))
